@@ -884,4 +884,146 @@ theorem nodeFields_id (cfg : Cfg) (already : Bool) (fs : List Field)
     · cases ho : orderOk fs <;> simp [hc, ho]
     · simp [hc]
 
+/-! ## the definition layer -/
+
+/-- the input preview the signature should give -/
+def expectedIns (ps : List FParam) : List InPrev :=
+  ps.map fun p => { label := p.name, hint := p.ann.hint, dflt := p.dflt.getD .nd }
+
+theorem previewInputs_ok (ps : List FParam) (h : ∀ p ∈ ps, initKeywords.contains p.name = false) :
+    previewInputs ps = .ok (expectedIns ps) := by
+  induction ps with
+  | nil => rfl
+  | cons p ps ih =>
+    have hp := h p (by simp)
+    have ih' := ih (fun q hq => h q (by simp [hq]))
+    simp only [previewInputs, hp, ih', expectedIns, Except.map, List.map_cons]
+    rfl
+
+theorem previewInputs_reserved (ps : List FParam) (p : FParam) (hm : p ∈ ps)
+    (hp : initKeywords.contains p.name = true) : previewInputs ps = .error .reservedName := by
+  induction ps with
+  | nil => cases hm
+  | cons q ps ih =>
+    unfold previewInputs
+    by_cases hq : initKeywords.contains q.name = true
+    · rw [if_pos hq]
+    · rw [if_neg hq]
+      rcases List.mem_cons.mp hm with rfl | hm'
+      · exact absurd hp hq
+      · rw [ih hm']; rfl
+
+theorem previewInputs_inv (ps : List FParam) (pin : List InPrev) (h : previewInputs ps = .ok pin) :
+    pin = expectedIns ps ∧ ∀ p ∈ ps, initKeywords.contains p.name = false := by
+  induction ps generalizing pin with
+  | nil =>
+    simp only [previewInputs, Except.ok.injEq] at h
+    subst h
+    exact ⟨rfl, fun p hp => by cases hp⟩
+  | cons p ps ih =>
+    unfold previewInputs at h
+    by_cases hp : initKeywords.contains p.name = true
+    · rw [if_pos hp] at h; cases h
+    · rw [if_neg hp] at h
+      cases hr : previewInputs ps with
+      | error e => rw [hr] at h; cases h
+      | ok r =>
+        rw [hr] at h
+        simp only [Except.map, Except.ok.injEq] at h
+        obtain ⟨e1, e2⟩ := ih r hr
+        subst e1
+        subst h
+        refine ⟨rfl, ?_⟩
+        intro q hq
+        rcases List.mem_cons.mp hq with rfl | hq'
+        · cases hb : initKeywords.contains q.name with
+          | false => rfl
+          | true => exact absurd hb hp
+        · exact e2 q hq'
+
+theorem hasDup_false (ls : List String) : hasDup ls = false ↔ ls.Nodup := by
+  induction ls with
+  | nil => simp [hasDup]
+  | cons x r ih =>
+    simp only [hasDup, Bool.or_eq_false_iff, List.nodup_cons, ih]
+    constructor
+    · rintro ⟨h1, h2⟩
+      exact ⟨by simpa using h1, h2⟩
+    · rintro ⟨h1, h2⟩
+      exact ⟨by simpa using h1, h2⟩
+
+theorem outHints_length (ra : RetAnn) (n : Nat) (hs : List Hint) (h : outHints ra n = .ok hs) (hn : 1 ≤ n) :
+    hs.length = n := by
+  unfold outHints at h
+  cases ra with
+  | empty => simp at h; subst h; simp
+  | none_ =>
+    by_cases h1 : n > 1
+    · simp [h1] at h
+    · simp [h1] at h; subst h; simp; omega
+  | obj x args =>
+    by_cases h1 : n > 1
+    · simp only [h1, if_true] at h
+      by_cases h2 : args.length = n
+      · simp [h2] at h; subst h; simpa using h2
+      · simp [h2] at h
+    · simp [h1] at h; subst h; simp; omega
+
+theorem zipLH_labels (ls : List String) (hs : List Hint) (h : hs.length = ls.length) :
+    (zipLH ls hs).map (·.1) = ls := by
+  induction ls generalizing hs with
+  | nil => cases hs <;> simp [zipLH]
+  | cons l ls ih =>
+    cases hs with
+    | nil => simp at h
+    | cons x hs => simp [zipLH, ih hs (by simpa using h)]
+
+theorem zipLH_nil_left (hs : List Hint) : zipLH [] hs = [] := by
+  cases hs <;> rfl
+
+theorem zipLH_isEmpty (ls : List String) (hs : List Hint) (h : hs.length = ls.length) (hne : ls ≠ []) :
+    (zipLH ls hs).isEmpty = false := by
+  cases ls with
+  | nil => exact absurd rfl hne
+  | cons l ls =>
+    cases hs with
+    | nil => simp at h
+    | cons x hs => simp [zipLH]
+
+theorem foldl_dictInsert (l acc : List (String × Hint)) (h : ((acc ++ l).map (·.1)).Nodup) :
+    l.foldl dictInsert acc = acc ++ l := by
+  induction l generalizing acc with
+  | nil => simp
+  | cons kv l ih =>
+    have hno : acc.any (fun p => p.1 == kv.1) = false := by
+      rw [List.any_eq_false]
+      intro p hp hc
+      have hc' : p.1 = kv.1 := by simpa using hc
+      simp only [List.map_append, List.map_cons] at h
+      have := (List.nodup_append.mp h).2.2 p.1 (List.mem_map.mpr ⟨p, hp, rfl⟩) kv.1 (by simp)
+      exact this hc'
+    have hstep : dictInsert acc kv = acc ++ [kv] := by simp [dictInsert, hno]
+    simp only [List.foldl_cons, hstep]
+    rw [ih (acc ++ [kv]) (by simpa using h)]
+    simp
+
+theorem asDict'_nodup (l : List (String × Hint)) (h : (l.map (·.1)).Nodup) : asDict' l = l := by
+  unfold asDict'
+  rw [foldl_dictInsert l [] (by simpa using h)]
+  simp
+
+theorem chanPanel_setupIns (pin : List InPrev) :
+    chanPanel (setupIns pin) = pin.map fun p => (p.label, p.dflt) := by
+  simp [chanPanel, setupIns, Function.comp_def]
+
+theorem chanPanel_setupOuts (pout : List (String × Hint)) :
+    chanPanel (setupOuts pout) = pout.map fun o => (o.1, Val.nd) := by
+  simp [chanPanel, setupOuts, Function.comp_def]
+
+/-- the instance made from the preview of a definition is the node the run-time theorems speak about -/
+theorem setupNode_eq_mkNode (ps : List FParam) (pout : List (String × Hint)) :
+    setupNode (expectedIns ps) pout
+      = mkNode (ps.map fun p => { name := p.name, dflt := p.dflt }) (pout.map (·.1)) := by
+  simp [setupNode, mkNode, chanPanel_setupIns, chanPanel_setupOuts, expectedIns, Function.comp_def]
+
 end PwVerif.FuncWrap
